@@ -432,4 +432,124 @@ theorem foldl_max_mem (cs : List Nat) (s : Nat) :
       · left; exact h
       · right; right; exact h
 
+/-! ### getMotionStates -/
+
+theorem msLoop_eq (c sz : Nat) (j added k : Nat) :
+    msLoop c sz j added k = ((List.range' j k).map (fun i => Slot.frac i c)).take (sz - added) := by
+  induction k generalizing j added with
+  | zero => simp [msLoop]
+  | succ k ih =>
+    unfold msLoop
+    by_cases h : added < sz
+    · simp only [h, if_true, ih, List.range'_succ, List.map_cons]
+      have : sz - added = (sz - (added + 1)) + 1 := by omega
+      rw [this, List.take_succ_cons]
+    · have : sz - added = 0 := by omega
+      simp [h, this]
+
+def msInterior (c : Nat) : List Slot := (List.range' 1 (c - 1)).map (fun j => Slot.frac j c)
+
+theorem msInterior_length (c : Nat) : (msInterior c).length = c - 1 := by simp [msInterior]
+
+theorem msFull_length (c : Nat) (e : Bool) :
+    (msFull c e).length = (if e then 2 else 0) + (if c < 2 then 0 else c - 1) := by
+  unfold msFull
+  cases e <;> by_cases h : c < 2 <;> simp [h] <;> omega
+
+/-- the call writes exactly the prefix of the full list that fits. -/
+theorem getMotionStatesC_eq_take (c : Nat) (e a : Bool) (size : Nat) :
+    (getMotionStatesC c e a size).written =
+        (msFull c e).take (if a then (msFull c e).length else size) ∧
+      (getMotionStatesC c e a size).newSize = (if a then (msFull c e).length else size) := by
+  have hlen := msFull_length c e
+  unfold getMotionStatesC
+  by_cases hc : c < 2
+  · simp only [hc, if_true]
+    cases e
+    · simp only [Bool.false_eq_true, if_false]
+      refine ⟨?_, ?_⟩
+      · simp [msFull, hc]
+      · simp only [hlen, hc]; simp
+    · simp only [if_true]
+      have hf : msFull c true = [Slot.start, Slot.goal] := by simp [msFull, hc]
+      cases a
+      · simp only [Bool.false_eq_true, if_false, hf]
+        refine ⟨?_, trivial⟩
+        rcases size with _ | _ | size <;> simp
+      · simp [hf]
+  · simp only [hc, if_false]
+    have hc2 : 2 ≤ c := by omega
+    cases e
+    · -- no end points
+      have hf : msFull c false = msInterior c := by simp [msFull, hc, msInterior]
+      simp only [Bool.false_and, Bool.and_false, Bool.false_eq_true, if_false, List.length_nil, List.nil_append,
+        List.append_nil, msLoop_eq, Nat.sub_zero]
+      rw [hf]
+      cases a
+      · simp [msInterior]
+      · simp [msInterior]
+    · have hf : msFull c true = Slot.start :: (msInterior c ++ [Slot.goal]) := by
+        simp [msFull, hc, msInterior]
+      simp only [Bool.true_and, Bool.and_true, msLoop_eq]
+      rw [hf]
+      have key : ∀ sz, (if decide (0 < sz) = true then [Slot.start] else []) ++
+            List.take (sz - (if decide (0 < sz) = true then [Slot.start] else []).length)
+              (List.map (fun i => Slot.frac i c) (List.range' 1 (c - 1))) ++
+            (if decide ((if decide (0 < sz) = true then [Slot.start] else []).length +
+                (List.take (sz - (if decide (0 < sz) = true then [Slot.start] else []).length)
+                  (List.map (fun i => Slot.frac i c) (List.range' 1 (c - 1)))).length < sz) = true
+              then [Slot.goal] else []) =
+          (Slot.start :: (msInterior c ++ [Slot.goal])).take sz := by
+        intro sz
+        rcases sz with _ | m
+        · simp
+        · simp only [Nat.zero_lt_succ, decide_true, if_true, List.length_cons, List.length_nil,
+            List.take_succ_cons, List.cons_append, List.nil_append, List.take_append]
+          congr 1
+          have hl : (msInterior c).length = c - 1 := msInterior_length c
+          simp only [msInterior] at hl ⊢
+          simp only [List.length_take, List.length_map, List.length_range', Nat.add_sub_cancel]
+          by_cases hm : c - 1 < m
+          · have h1 : 0 + 1 + min m (c - 1) < m + 1 := by omega
+            have h2 : m - (c - 1) = (m - (c - 1) - 1) + 1 := by omega
+            simp [h1]
+            rw [h2]; simp
+          · have h1 : ¬ 0 + 1 + min m (c - 1) < m + 1 := by omega
+            have h2 : m - (c - 1) = 0 := by omega
+            simp [h1, h2]
+      cases a
+      · simp only [Bool.false_eq_true, if_false]
+        exact ⟨key size, trivial⟩
+      · simp only [if_true]
+        have : (Slot.start :: (msInterior c ++ [Slot.goal])).length = c + 1 := by
+          simp [msInterior_length]; omega
+        rw [this]
+        exact ⟨key (c + 1), rfl⟩
+
+theorem msFull_get_noEndpoints (c p : Nat) (h : p + 1 < c) :
+    (msFull c false)[p]? = some (Slot.frac (p + 1) c) := by
+  have hc : ¬ c < 2 := by omega
+  simp only [msFull, Bool.false_eq_true, if_false, hc, List.nil_append, List.append_nil]
+  rw [List.getElem?_map, List.getElem?_range' (by omega)]
+  simp; omega
+
+theorem msFull_get_endpoints (c p : Nat) (hc : 2 ≤ c) :
+    (msFull c true)[0]? = some Slot.start ∧
+    (1 ≤ p → p < c → (msFull c true)[p]? = some (Slot.frac p c)) ∧
+    (msFull c true)[c]? = some Slot.goal := by
+  have hc' : ¬ c < 2 := by omega
+  have hf : msFull c true = Slot.start :: (msInterior c ++ [Slot.goal]) := by
+    simp [msFull, hc', msInterior]
+  have hl := msInterior_length c
+  refine ⟨by simp [hf], ?_, ?_⟩
+  · intro h1 h2
+    obtain ⟨q, rfl⟩ : ∃ q, p = q + 1 := ⟨p - 1, by omega⟩
+    rw [hf, List.getElem?_cons_succ, List.getElem?_append_left (by omega)]
+    simp only [msInterior]
+    rw [List.getElem?_map, List.getElem?_range' (by omega)]
+    simp; omega
+  · obtain ⟨q, rfl⟩ : ∃ q, c = q + 1 := ⟨c - 1, by omega⟩
+    rw [hf, List.getElem?_cons_succ, List.getElem?_append_right (by omega)]
+    simp [hl]
+
 end OmplModel.Motion
